@@ -270,6 +270,32 @@ func runC04(ctx *Ctx, c c04Case) {
 	}
 }
 
+// a process without out-ports drives the workflow while its upstream also feeds an out-port that only the sink
+// consumes: every input set reaches the driver only if the sink drains that port while the driver runs
+func sinkDrains(ctx *Ctx, items, buf int) {
+	paths := []string{}
+	pre := map[string]string{}
+	for i := 0; i < items; i++ {
+		p := fmt.Sprintf("g%02d.txt", i)
+		paths = append(paths, p)
+		pre[p] = p + "\n"
+	}
+	d := &Desc{Name: "c04sink", Max: 4, Nodes: []Node{{Name: "src", Kind: "filesource", Paths: paths},
+		{Name: "gen", Kind: "proc", Cmd: "( cat {i:in} > {o:a} ; cat {i:in} > {o:b} )", Outs: map[string]string{"a": "{i:in}.a", "b": "{i:in}.b"}},
+		{Name: "report", Kind: "proc", Cmd: "( cat {i:in} >> ../report.log )"}},
+		Edges: []Edge{{From: "src.out", To: "gen.in"}, {From: "gen.a", To: "report.in"}}}
+	rr := RunWorkflow(d, RunOpts{Pre: pre, Timeout: 20e9, Env: []string{fmt.Sprintf("SCIPIPE_BUFSIZE=%d", buf)}})
+	defer os.RemoveAll(rr.Dir)
+	w := [2]int{items, buf}
+	ctx.Res.Eval(fmt.Sprintf("sink-drains items=%d bufsize=%d", items, buf), true, w)
+	ctx.Res.Count("driver-without-out-ports+sink")
+	got, _ := readFile(rr.Dir, "report.log")
+	n := strings.Count(got, "\n")
+	if rr.Exit != 0 || n != items {
+		ctx.Res.Violate(Violation{What: fmt.Sprintf("a driver without out-ports processed %d of %d input sets while its upstream also feeds the sink (SCIPIPE_BUFSIZE=%d, exit %d): %s", n, items, buf, rr.Exit, firstLine(rr.Stderr)), Class: "c04.sink-drain", Witness: w})
+	}
+}
+
 func checkC04(ctx *Ctx) {
 	ctx.Res.Rule = "random acyclic workflows (chains, diamonds, fan-out, fan-in free multi-port and multi-edge processes, FromStr / ParamSource parameter ports, processes without ports or without out-ports), balanced and unbalanced stream lengths 0-7 against SCIPIPE_BUFSIZE in {1,2,3,128}, maxConcurrentTasks 1-4; non-trivial = at least two tasks; distinct by (graph, bufsize). Checks: per process the number of executed commands, no input set twice, file set and every file's bytes equal to the zip-semantics oracle, and the Lean task-creation model's task count; channel model searched exhaustively for small parameters."
 	r := NewRng(ctx.Seed)
@@ -288,6 +314,8 @@ func checkC04(ctx *Ctx) {
 			cases = append(cases, c04Case{Dag: genBalancedDag(r, true, 7), Buf: []int{1, 2, 3, 128}[r.Intn(4)]})
 		}
 	}
+	sinkDrains(ctx, 12, 1)
+	sinkDrains(ctx, 9, 2)
 	parallel(len(cases), 8, func(i int) {
 		if ctx.TimeLeft() {
 			runC04(ctx, cases[i])
